@@ -826,9 +826,15 @@ class WorkflowConductor(object):
             "next": {},
         }
 
-        # If the task has retry spec defined, then setup the retry in the task state entry.
+        # If the task has retry spec defined, then setup the retry in the task state entry. If there
+        # is a failure while evaluating expression(s) in the retry spec, fail the workflow.
         if self.graph.task_has_retry(task_id):
-            self.setup_retry_in_task_state(task_state_entry, in_ctx_idxs)
+            try:
+                self.setup_retry_in_task_state(task_state_entry, in_ctx_idxs)
+            except Exception as e:
+                task_state_entry.pop("retry", None)
+                self.log_error(e, task_id=task_id, route=route)
+                self.request_workflow_status(statuses.FAILED)
 
         # Append the task state entry to the list of task execution.
         task_state_entry_id = constants.TASK_STATE_ROUTE_FORMAT % (task_id, str(route))
@@ -949,9 +955,17 @@ class WorkflowConductor(object):
             # the state machine has determined the status for the task execution. If the task
             # is completed, get the task result and context which is required to evaluate the
             # the condition if a retry for the task is required.
-            if self.get_workflow_status() in statuses.ACTIVE_STATUSES and self._evaluate_task_retry(
-                task_state_entry, current_ctx
-            ):
+            # If there is a failure while evaluating the retry condition, fail the workflow.
+            try:
+                retry_requested = self.get_workflow_status() in statuses.ACTIVE_STATUSES and (
+                    self._evaluate_task_retry(task_state_entry, current_ctx)
+                )
+            except Exception as e:
+                retry_requested = False
+                self.log_error(e, task_id=task_id, route=route)
+                self.request_workflow_status(statuses.FAILED)
+
+            if retry_requested:
                 return self.update_task_state(task_id, route, events.TaskRetryEvent())
 
         # Evaluate task transitions if task is completed and status change is not processed.
